@@ -176,6 +176,56 @@ theorem pass1_restVar (doc : List DocArg) (args : List Obj) (ds : List DocArg) (
     exact pass1_exhausted doc args ds 2 _ (by simp)
 
 
+/-! #### the &rest loop in general: it stops in front of the first keyword that names a key parameter -/
+
+/-- does the &rest loop stop in front of this argument? -/
+def stopAt (doc : List DocArg) : Obj → Bool
+  | .kw k => LambdaCall.isKeyParam doc k
+  | _ => false
+
+theorem restLoop_split (doc : List DocArg) (args : List Obj) (name : String) (m : Nat) :
+    ∀ (fuel : Nat) (st : St), args.length - st.ai < fuel → st.ai ≤ args.length →
+      restLoop doc args name m fuel st =
+        ({ ai := st.ai + ((args.drop st.ai).takeWhile (fun a => !stopAt doc a)).length, vars := st.vars,
+           rest := st.rest ++ (args.drop st.ai).takeWhile (fun a => !stopAt doc a),
+           restSym := if (args.drop st.ai).takeWhile (fun a => !stopAt doc a) = [] then st.restSym
+                      else (if st.restSym = "" then name else st.restSym) },
+         if ((args.drop st.ai).takeWhile (fun a => !stopAt doc a)).length = (args.drop st.ai).length then m else 3) := by
+  intro fuel
+  induction fuel with
+  | zero => intro st h; omega
+  | succ fuel ih =>
+    intro st hf hle
+    by_cases hlt : st.ai < args.length
+    · have hs : args[st.ai]? = some args[st.ai] := List.getElem?_eq_getElem hlt
+      have hd : args.drop st.ai = args[st.ai] :: args.drop (st.ai + 1) := List.drop_eq_getElem_cons hlt
+      have hrec := ih { st with ai := st.ai + 1, restSym := if st.restSym = "" then name else st.restSym,
+                                rest := st.rest ++ [args[st.ai]] } (by simp only; omega) (by simp only; omega)
+      simp only at hrec
+      have hsym : ∀ (b : List Obj), (if b = [] then (if st.restSym = "" then name else st.restSym)
+          else (if (if st.restSym = "" then name else st.restSym) = "" then name else (if st.restSym = "" then name else st.restSym)))
+            = (if st.restSym = "" then name else st.restSym) := by
+        intro b
+        by_cases h0 : st.restSym = ""
+        · simp only [h0, if_true]; split <;> (try rfl); split <;> rfl
+        · simp [h0]
+      simp only [hsym] at hrec
+      simp only [restLoop, LambdaCall.restLoop, Cmp.eval, hlt, decide_true, if_true, hs, hd]
+      generalize args[st.ai] = a at hrec ⊢
+      cases a with
+      | kw k =>
+        by_cases hk : LambdaCall.isKeyParam doc k = true
+        · simp [stopAt, hk, List.takeWhile]
+        · simp only [Bool.not_eq_true] at hk
+          simp [stopAt, hk, List.takeWhile, hrec, Nat.add_assoc, Nat.add_comm 1]
+      | nil => simp [stopAt, List.takeWhile, hrec, Nat.add_assoc, Nat.add_comm 1]
+      | int i => simp [stopAt, List.takeWhile, hrec, Nat.add_assoc, Nat.add_comm 1]
+      | sym x => simp [stopAt, List.takeWhile, hrec, Nat.add_assoc, Nat.add_comm 1]
+      | str x => simp [stopAt, List.takeWhile, hrec, Nat.add_assoc, Nat.add_comm 1]
+      | cons x y => simp [stopAt, List.takeWhile, hrec, Nat.add_assoc, Nat.add_comm 1]
+    · have hd : args.drop st.ai = [] := List.drop_eq_nil_of_le (by omega)
+      simp [restLoop, LambdaCall.restLoop, Cmp.eval, hlt, hd]
+
 /-! #### the &key loop -/
 
 /-- the &key loop as a function of the arguments that are left -/
